@@ -561,7 +561,7 @@ pub fn run(ctx: &mut Ctx) {
     ctx.assume("min(1, exp(NaN)) of a NaN-energy leaf is left undefined by the statement: such transitions are excluded from the acceptance-statistic comparison");
     let t = ctx.tier;
     let max_steps = if t == crate::engine::Tier::Quick { 4 } else { 8 };
-    ctx.section("forced-eps", "single transitions with forced step sizes: structure (layer A), eligibility (B), exact selection and generator position (C)", t.pick(700, 70_000), 16, move || strategy(max_steps), check);
-    ctx.section("warmup-runs", "every transition of short real runs with warm-up: layers A and B", t.pick(100, 10_000), 16, run_strategy, check_run);
-    ctx.section("direct-build-tree", "verif_build_tree / stop_criterion / leapfrog with generated inputs vs the reference (edges, counts, alpha, selected point, uniforms consumed)", t.pick(1500, 150_000), 16, tree_strategy, check_tree);
+    ctx.section("forced-eps", "single transitions with forced step sizes: structure (layer A), eligibility (B), exact selection and generator position (C)", t.pick(8_000, 300_000), 16, move || strategy(max_steps), check);
+    ctx.section("warmup-runs", "every transition of short real runs with warm-up: layers A and B", t.pick(1_200, 40_000), 16, run_strategy, check_run);
+    ctx.section("direct-build-tree", "verif_build_tree / stop_criterion / leapfrog with generated inputs vs the reference (edges, counts, alpha, selected point, uniforms consumed)", t.pick(20_000, 600_000), 16, tree_strategy, check_tree);
 }
